@@ -8,8 +8,9 @@ EXTENDS PlannerLifecycle, PlannerContract, TraceIO
 
 VARIABLES l,      \* cursor
           nsol,   \* [Pdefs -> Nat]: number of solutions each definition held after its last report
-          B       \* bound on termination-condition evaluations after the k-th (per planner class)
-tvars == <<vars, l, nsol, B>>
+          B,      \* bound on termination-condition evaluations after the k-th (per planner class)
+          gpd     \* getPlannerData() was called in this execution
+tvars == <<vars, l, nsol, B, gpd>>
 
 Ev == Log[l]
 Is(e) == l <= NLog /\ Ev.e = e /\ l' = l + 1
@@ -25,14 +26,13 @@ Worse(a, b) ==   \* a strictly worse than b, beyond tolerance
     \/ (a.approx /\ b.approx /\ a.diff > b.diff + Tol)
     \/ (~a.approx /\ ~b.approx /\ a.len > b.len + Tol)
 
-SolveClauses == {"knownStatus", "solutionSetUntouchedBetweenCalls", "solutionCount", "solutionStatusHasPath",
+SolveClauses == {"knownStatus", "solutionCount", "solutionStatusHasPath",
                  "exactStatusHoldsExact", "nonSolutionAddsNothing", "noSolutionLost", "topNotWorse",
                  "invalidStartOnlyIfInvalid", "invalidGoalOnlyIfInvalid", "exactOnlyIfReachable",
                  "noSolutionFromInvalidStart", "boundedReturn", "freshForgetsOldQueries"}
 
 SolveClause(c, r) ==
     CASE c = "knownStatus" -> r.status \in SolutionStatuses \cup NonSolutionStatuses
-      [] c = "solutionSetUntouchedBetweenCalls" -> r.nBefore = nsol[bound]
       [] c = "solutionCount" -> Len(r.sols) = r.nAfter
       [] c = "solutionStatusHasPath" -> (r.status \in SolutionStatuses => r.nAfter >= 1)
       [] c = "exactStatusHoldsExact" -> (r.status = "EXACT" => r.hasExact)
@@ -54,30 +54,31 @@ FailedSolve(r) ==
     {c \in SolveClauses : ~SolveClause(c, r)}
         \cup UNION {IF r.sols[i].added THEN FailedSol(r, r.sols[i]) ELSE {} : i \in 1..Len(r.sols)}
 
-TInit == Init /\ l = 1 /\ nsol = [p \in Pdefs |-> 0] /\ B = 0
+TInit == Init /\ l = 1 /\ nsol = [p \in Pdefs |-> 0] /\ B = 0 /\ gpd = FALSE
 
 TReset == /\ Is("Reset")
           /\ bound' = "none" /\ qid' = [p \in Pdefs |-> 0] /\ holds' = {} /\ roadmap' = {}
           /\ needsClear' = FALSE /\ solved' = [p \in Pdefs |-> FALSE] /\ alive' = TRUE
           /\ lastAct' = [act |-> "Init", args |-> <<>>]
-          /\ nsol' = [p \in Pdefs |-> 0] /\ B' = Ev.B
-TSetPdef == Is("SetPdef") /\ SetPdef(Ev.p) /\ UNCHANGED <<nsol, B>>
-TNewQuery == Is("NewQuery") /\ NewQuery(Ev.p) /\ nsol' = [nsol EXCEPT ![Ev.p] = 0] /\ UNCHANGED B
-TSetup == Is("Setup") /\ UNCHANGED <<vars, nsol, B>>
+          /\ nsol' = [p \in Pdefs |-> 0] /\ B' = Ev.B /\ gpd' = FALSE
+TSetPdef == Is("SetPdef") /\ SetPdef(Ev.p) /\ UNCHANGED <<nsol, B, gpd>>
+TNewQuery == Is("NewQuery") /\ NewQuery(Ev.p) /\ nsol' = [nsol EXCEPT ![Ev.p] = 0] /\ UNCHANGED <<B, gpd>>
+TSetup == Is("Setup") /\ Setup /\ UNCHANGED <<nsol, B, gpd>>
 TSolve == /\ Is("Solve") /\ Solve(Ev.k)
           /\ Report(FailedSolve(Norm(Ev)))
-          /\ nsol' = [nsol EXCEPT ![bound] = Ev.nAfter] /\ UNCHANGED B
-TClear == Is("Clear") /\ Clear /\ UNCHANGED <<nsol, B>>
-TClearQuery == Is("ClearQuery") /\ ClearQuery /\ UNCHANGED <<nsol, B>>
+          /\ nsol' = [nsol EXCEPT ![bound] = Ev.nAfter] /\ UNCHANGED <<B, gpd>>
+TClear == Is("Clear") /\ Clear /\ UNCHANGED <<nsol, B, gpd>>
+TClearQuery == Is("ClearQuery") /\ ClearQuery /\ UNCHANGED <<nsol, B, gpd>>
 TGetData == /\ Is("GetPlannerData") /\ GetPlannerData
             /\ Report(IF roadmap = {} /\ (\A h \in holds : h = Cur(bound)) /\ Ev.stale # 0
                       THEN {"plannerDataForgetsOldQueries"} ELSE {})
-            /\ UNCHANGED <<nsol, B>>
+            /\ gpd' = TRUE /\ UNCHANGED <<nsol, B>>
 TDestroy == /\ Is("Destroy") /\ Destroy
-            /\ Report((IF Ev.live # 0 THEN {"noLeak"} ELSE {}) \cup (IF Ev.badFrees # 0 THEN {"noDoubleFree"} ELSE {}))
-            /\ UNCHANGED <<nsol, B>>
+            /\ Report((IF Ev.live # 0 THEN {IF gpd THEN "noLeakAfterGetPlannerData" ELSE "noLeak"} ELSE {})
+                          \cup (IF Ev.badFrees # 0 THEN {"noDoubleFree"} ELSE {}))
+            /\ UNCHANGED <<nsol, B, gpd>>
 TBad == /\ l <= NLog /\ Ev.e \in {"Hang", "Crash"} /\ l' = l + 1
-        /\ Report({Ev.e}) /\ UNCHANGED <<vars, nsol, B>>
+        /\ Report({Ev.e}) /\ UNCHANGED <<vars, nsol, B, gpd>>
 
 TNext == TReset \/ TSetPdef \/ TNewQuery \/ TSetup \/ TSolve \/ TClear \/ TClearQuery \/ TGetData
          \/ TDestroy \/ TBad
